@@ -699,8 +699,17 @@ fn worker_main(i: usize, hook: Option<fn()>) {
 /// Returns `f`'s result (or its panic payload) and the report.  Strictly one simulation at a
 /// time per process.
 pub fn run<R: Send>(cfg: Config, f: impl FnOnce() -> R + Send) -> (std::thread::Result<R>, Report) {
+    let (mut rs, report) = run_multi(cfg, vec![f]);
+    (rs.pop().unwrap(), report)
+}
+
+/// Like `run`, with several external caller threads X0..Xk-1 (one closure each) that use the one
+/// simulated pool concurrently; which caller moves is a scheduler decision like any other.
+pub fn run_multi<R: Send, F: FnOnce() -> R + Send>(cfg: Config, fs: Vec<F>) -> (Vec<std::thread::Result<R>>, Report) {
     assert!(cfg.workers >= 1 && cfg.workers <= MAX_WORKERS);
+    assert!(!fs.is_empty() && fs.len() <= MAX_THREADS - EXT_BASE);
     assert!(!ACTIVE.load(Ordering::SeqCst), "one simulation at a time");
+    let k = fs.len();
     let n = cfg.workers;
     let stack = cfg.stack;
     let hook = cfg.thread_start;
@@ -717,7 +726,13 @@ pub fn run<R: Send>(cfg: Config, f: impl FnOnce() -> R + Send) -> (std::thread::
     }
     NEXT_JOB_ID.store(1, Ordering::SeqCst);
     let mut status = [St::Absent; MAX_THREADS];
-    status[EXT_BASE] = St::Running;
+    if k == 1 {
+        status[EXT_BASE] = St::Running;
+    } else {
+        for x in 0..k {
+            status[EXT_BASE + x] = St::AtPoint;
+        }
+    }
     *lock() = Some(Sim {
         cfg,
         rng,
@@ -740,36 +755,60 @@ pub fn run<R: Send>(cfg: Config, f: impl FnOnce() -> R + Send) -> (std::thread::
         scratch: Vec::with_capacity(64),
     });
     ACTIVE.store(true, Ordering::SeqCst);
-    let result = std::thread::scope(|s| {
-        let h = std::thread::Builder::new()
-            .name("simX0".into())
-            .stack_size(stack)
-            .spawn_scoped(s, move || {
-                if let Some(h) = hook {
-                    h();
-                }
-                TID.with(|t| t.set(Some(EXT_BASE)));
-                let r = catch_unwind(AssertUnwindSafe(f));
-                // drain detached work, then leave
-                let started = lock().as_ref().unwrap().workers_started;
-                if started {
-                    let g = lock();
-                    match yield_with(EXT_BASE, g, St::Drain) {
-                        Assignment::Resume => {}
-                        _ => unreachable!(),
-                    }
-                }
-                TID.with(|t| t.set(None));
-                r
+    let results = std::thread::scope(|s| {
+        let hs: Vec<_> = fs
+            .into_iter()
+            .enumerate()
+            .map(|(x, f)| {
+                let me = EXT_BASE + x;
+                std::thread::Builder::new()
+                    .name(format!("simX{x}"))
+                    .stack_size(stack)
+                    .spawn_scoped(s, move || {
+                        if let Some(h) = hook {
+                            h();
+                        }
+                        TID.with(|t| t.set(Some(me)));
+                        if k > 1 {
+                            // several callers: wait to be scheduled for the first time
+                            match wait_turn(me, lock()) {
+                                Assignment::Resume => {}
+                                _ => unreachable!(),
+                            }
+                        }
+                        let r = catch_unwind(AssertUnwindSafe(f));
+                        // drain detached work, then leave
+                        let started = lock().as_ref().unwrap().workers_started;
+                        if started || k > 1 {
+                            let g = lock();
+                            match yield_with(me, g, St::Drain) {
+                                Assignment::Resume => {}
+                                _ => unreachable!(),
+                            }
+                        }
+                        leave(me);
+                        TID.with(|t| t.set(None));
+                        r
+                    })
+                    .expect("spawn scenario thread")
             })
-            .expect("spawn scenario thread");
-        h.join()
+            .collect();
+        if k > 1 {
+            // the first decision: which caller starts
+            let mut g = lock();
+            let sim = g.as_mut().unwrap();
+            sim.turn = usize::MAX;
+            sim.dispatch();
+            let t = sim.turn;
+            drop(g);
+            CVS[t].notify_one();
+        }
+        hs.into_iter().map(|h| h.join().unwrap_or_else(Err)).collect::<Vec<_>>()
     });
     // shut the workers down (all are idle and parked)
     {
         let mut g = lock();
         let sim = g.as_mut().unwrap();
-        sim.status[EXT_BASE] = St::Done;
         if sim.workers_started {
             for w in 0..n {
                 sim.assign[w] = Some(Assignment::Terminate);
@@ -788,9 +827,26 @@ pub fn run<R: Send>(cfg: Config, f: impl FnOnce() -> R + Send) -> (std::thread::
     ACTIVE.store(false, Ordering::SeqCst);
     let sim = lock().take().unwrap();
     let report = Report { decisions: sim.log, stats: sim.stats, error: sim.error };
-    let result = match result {
-        Ok(r) => r,
-        Err(e) => Err(e),
-    };
-    (result, report)
+    (results, report)
+}
+
+/// An external caller leaves the simulation: it hands the baton on (without waiting for it to
+/// come back) if anybody else can still move.
+fn leave(me: usize) {
+    let mut g = lock();
+    let sim = g.as_mut().expect("simulation active");
+    sim.status[me] = St::Done;
+    sim.enabled();
+    if sim.scratch.is_empty() {
+        let others = (EXT_BASE..MAX_THREADS).any(|t| !matches!(sim.status[t], St::Absent | St::Done));
+        if others {
+            let m = "stall: a caller left while another caller can never move again".to_string();
+            fatal(sim, m);
+        }
+        return;
+    }
+    sim.dispatch();
+    let t = sim.turn;
+    drop(g);
+    CVS[t].notify_one();
 }
